@@ -11,6 +11,7 @@ import (
 	"github.com/ipld/go-ipld-prime/linking"
 	"github.com/ipld/go-ipld-prime/node/basicnode"
 	"github.com/ipld/go-ipld-prime/traversal"
+	"github.com/ipld/go-ipld-prime/traversal/selector/builder"
 	"pgregory.net/rapid"
 
 	"verif/evid"
@@ -31,34 +32,38 @@ type C15Case struct {
 
 const bigBudget = 1 << 40
 
-// c15StepConstant measures, on a link-free three-level map, how many units beyond the number of segments the
-// path-directed function needs (whether the starting node is charged is the function's own business).
+// c15StepConstant: how many units beyond the number of segments Get / Focus need to follow a path. The
+// reference is the selector walk along the same path (explore-fields clauses down to a matcher), which visits
+// the start node and one node per segment, each visit costing one unit: the constant is measured on that walk
+// over a link-free three-level map, and Get / Focus, which step over the same nodes, must need the same.
 var c15StepConstants sync.Map
 
 func c15StepConstant(fn string) int {
-	if v, ok := c15StepConstants.Load(fn); ok {
+	if v, ok := c15StepConstants.Load("walk"); ok {
 		return v.(int)
 	}
 	plain := nodes.MustBuild(val.MkMap(val.Ent{K: "a", V: val.MkMap(val.Ent{K: "b", V: val.MkMap(val.Ent{K: "c", V: val.MkInt(1)})})}))
-	path := datamodel.ParsePath("a/b/c")
-	c := 0
-	for N := 0; N <= 8; N++ {
-		prog := traversal.Progress{Budget: &traversal.Budget{NodeBudget: int64(N), LinkBudget: bigBudget}}
-		var e error
-		switch fn {
-		case "Get":
-			_, e = prog.Get(plain, path)
-		case "Focus":
-			e = prog.Focus(plain, path, func(traversal.Progress, datamodel.Node) error { return nil })
-		default:
-			_, e = prog.FocusedTransform(plain, path, func(_ traversal.Progress, n datamodel.Node) (datamodel.Node, error) { return n, nil }, false)
-		}
-		if e == nil {
-			c = N - 3
-			break
+	ssb := builder.NewSelectorSpecBuilder(basicnode.Prototype.Any)
+	field := func(name string, next builder.SelectorSpec) builder.SelectorSpec {
+		return ssb.ExploreFields(func(b builder.ExploreFieldsSpecBuilder) { b.Insert(name, next) })
+	}
+	sel, err := field("a", field("b", field("c", ssb.Matcher()))).Selector()
+	c := 1
+	if err == nil {
+		for N := 0; N <= 8; N++ {
+			reached := false
+			prog := traversal.Progress{Budget: &traversal.Budget{NodeBudget: int64(N), LinkBudget: bigBudget}}
+			e := prog.WalkMatching(plain, sel, func(p traversal.Progress, _ datamodel.Node) error {
+				reached = reached || p.Path.String() == "a/b/c"
+				return nil
+			})
+			if e == nil && reached {
+				c = N - 3
+				break
+			}
 		}
 	}
-	c15StepConstants.Store(fn, c)
+	c15StepConstants.Store("walk", c)
 	return c
 }
 
@@ -281,10 +286,10 @@ func c15Check(c C15Case, rec *evid.Rec) error {
 				rec.Class("gets")
 			}
 		}
-		// 2c. node budget on the same functions. Get / Focus: every step along the path costs one unit, whether it
-		// stays in the block or crosses links (those are charged to the link budget): the threshold is "number
-		// of segments + c", c being what the function needs beyond the segment count on a plain link-free map
-		// (measured, not assumed). FocusedTransform has its own accounting at links, so its threshold T is
+		// 2c. node budget on the same functions. Get / Focus: every node on the path costs one unit, whether the
+		// step stays in the block or crosses links (those are charged to the link budget): the threshold is
+		// "number of segments + c", c being what a selector walk along a path needs beyond the segment count
+		// (measured on the real walk, not assumed: it visits the start node too). FocusedTransform has its own accounting at links, so its threshold T is
 		// measured on the path itself and only two things are required of it: below T the budget error, from T on
 		// success; and every further step taken below the end of the existing data (createParents) costs exactly
 		// one more unit.
